@@ -35,6 +35,10 @@ structure St where
   mode : Mode := .none
   maps : Maps := {}                       -- raw mode
   srv : Srv := {}                         -- srv mode (its maps are the cache)
+  /-- the IMPLEMENTATION's state as observed: `maps` = the kernel maps (the reported deltas applied), `leases` = the
+      lease table the real server reported, `now` = the virtual clock.  The C03 monitors judge this state, not the
+      model's, so a cache entry the real code leaves behind is seen even where the model would have removed it. -/
+  impl : Srv := {}
   /-- the last transmitted reply: request payload (BOOTP bytes), reply BOOTP bytes, the cached address it was
       answered from (Go's integer), whether server_config.server_ip was 0, whether the answer came from a
       circuit-id entry none of whose leases belongs to the requesting MAC, whether the program's fixed-offset scan
@@ -167,13 +171,13 @@ def c03RunMonitors (st : St) (f : Frame) (clkNs : Nat) (impl : String) : List (S
             [("malformed-reply", clause, s!"reply-type-{show1 got}-for-request-type-{show2 (trueMsgType reqOpts)}")]
       -- (3) answers only from entries whose lease is alive
       let aae : List (String × String × String) :=
-        match hitKey f st.srv.maps p with
+        match hitKey f st.impl.maps p with
         | some (mapName, key) =>
           if mapName == "vlan" then [] else
-          let os := owners st.srv mapName key
+          let os := owners st.impl mapName key
           if os.isEmpty then [("answers-after-end", "none", s!"entry-without-lease:{mapName}:{bytesToHex key}")]
-          else if os.all (fun l => decide (st.srv.now > l.exp)) then
-            let clause := if clkNs / 1000000000 != st.srv.now then "D11" else "none"
+          else if os.all (fun l => decide (st.impl.now > l.exp)) then
+            let clause := if clkNs / 1000000000 != st.impl.now then "D11" else "none"
             [("answers-after-end", clause, s!"lease-expired:{mapName}:{bytesToHex key}")]
           else []
         | none => []
@@ -228,6 +232,51 @@ def compareReplies (reqBootp fb : List UInt8) (cachedIp : Option UInt32) (cfgZer
     if misread then [("reply-differs", "KF-opt53-fixed", "message-type-read-at-a-fixed-offset")]
     else if foreignCid then [("reply-differs", "KF-cid-foreign-mac", "answered-from-another-clients-circuit-id-entry")]
     else [("reply-differs", "none", "slow-path-sends-nothing")]
+
+/-! ### the implementation's state, as observed -/
+
+def applyDelta (m : Maps) (d : String) : Maps :=
+  if d == "-" then m else
+  (d.splitOn ",").foldl (fun m tok =>
+    let add := tok.startsWith "+"
+    match ((tok.drop 1).toString.splitOn ":") with
+    | [name, k, v] =>
+      if add then
+        match parseHexBytes k, parseHexBytes v with
+        | some k, some v => (putMap m name k v).getD m
+        | _, _ => m
+      else m
+    | [name, k] =>
+      if add then m else
+      match parseHexBytes k with
+      | some k => (delMap m name k).getD m
+      | none => m
+    | _ => m) m
+
+def parseLeases (l : String) : AMap Bytes Lease :=
+  if l == "-" then [] else
+  (l.splitOn ",").filterMap fun tok =>
+    match tok.splitOn ":" with
+    | [mac, ip, exp, cid] =>
+      match parseHexBytes mac, parseHex ip, exp.toNat? with
+      | some mac, some ip, some exp =>
+        let c : Option Bytes := if cid == "-" then none else parseHexBytes cid
+        some (mac, { mac := mac, ip := UInt32.ofNat ip, poolId := 0, exp := exp, cid := c })
+      | _, _, _ => none
+    | _ => none
+
+/-- fold one trace line's observation into the observed state -/
+def observe (o : Srv) (toks : List String) (impl : String) : Srv :=
+  let it := splitTokens impl
+  let o := match it.findSome? (kvOf · "d") with
+    | some d => { o with maps := applyDelta o.maps d }
+    | none => o
+  let o := match it.findSome? (kvOf · "L") with
+    | some l => { o with leases := parseLeases l }
+    | none => o
+  match toks with
+  | ["tick", n] => { o with now := o.now + n.toNat?.getD 0 }
+  | _ => o
 
 /-! ### srv ops -/
 
@@ -366,7 +415,7 @@ def stepSrv (st : St) (toks : List String) (impl : String) : St × LineResult :=
       let lastTx :=
         match splitTokens impl, payloadOf f with
         | ["3", after], some (p, pl) => (parseHexBytes after).map fun g =>
-            let m := st.srv.maps
+            let m := st.impl.maps
             let cached := (hitKey f m p).bind fun (mapName, key) =>
               if mapName == "vlan" then none else
               (AMap.lookup (if mapName == "cid" then m.cid else m.sub) key).map fun v => rd32 v 4
@@ -374,7 +423,7 @@ def stepSrv (st : St) (toks : List String) (impl : String) : St × LineResult :=
             let foreignCid := match hitKey f m p with
               | some ("cid", key) =>
                 -- the entry under a circuit-id holds what the LAST lease acknowledged with that circuit-id wrote
-                !(owners st.srv "cid" key).any (fun l => l.mac == bytesAt f (p.dhcpOff + 28) 6 && some l.ip == cached)
+                !(owners st.impl "cid" key).any (fun l => l.mac == bytesAt f (p.dhcpOff + 28) 6 && some l.ip == cached)
               | _ => false
             let detected := match getMsgType f p.dhcpOff with | .ok t => some t | _ => none
             (pl, g.drop p.dhcpOff, cached, cfgZero, foreignCid, detected != trueMsgType (pl.drop 240))
@@ -416,13 +465,15 @@ def step (st : St) (toks : List String) (impl : String) : St × LineResult :=
     match (splitTokens impl).findSome? (kvOf · "t") |>.bind String.toNat?, parseIp ip with
     | some t, some ip =>
       let srv : Srv := { now := t, serverIp := ip }
-      ({ mode := .srv, srv := srv },
+      ({ mode := .srv, srv := srv, impl := observe { now := t, maps := { cfg := none } } toks impl },
        { modelObs := s!"ok t={t} d={delta { cfg := none } srv.maps}" })
     | _, _ => (st, { modelObs := "badop" })
   | _ =>
     match st.mode with
     | .raw => stepRaw st toks impl
-    | .srv => stepSrv st toks impl
+    | .srv =>
+      let (st', res) := stepSrv st toks impl
+      ({ st' with impl := observe st.impl toks impl }, res)
     | .none => (st, { modelObs := "badop" })
 
 def component : Component := { σ := St, init := {}, step := step }
